@@ -3,7 +3,7 @@ from __future__ import annotations
 
 import ast
 
-from sa.loader import recv, norm, norm1, walk_shallow, call_name, subscript_writes, own_nodes
+from sa.loader import recv, norm, norm1, walk_shallow, call_name, subscript_writes, own_nodes, is_super_call
 from sa.cfg import canon_fact
 from sa.rulekit import (nodes_calling, node_calls, nodes_where, return_nodes, node_roots,
                         is_const, kw)
@@ -91,6 +91,36 @@ def run(ck):
                  "'_' need _reserved, and no _reserved creation site can yield an '_ext_' name",
                  'M0', 6)
 
+    R4 = ck.rule('R14.4', "all data items arrive, whatever their names: every definition of event() in the package "
+                 "takes the event type as a positional-only parameter and the data as **keywords (a data item "
+                 "named like a parameter - 'etype', 'self' - would otherwise collide), and an override passes the "
+                 "type positionally and the complete **data on", 'M0', 2)
+    with ck.section('R14.4'):
+        import ast as _ast
+        n4 = 0
+        for c4 in prog.pkg_classes():
+            f4 = c4.methods.get('event')
+            if f4 is None or c4.module.name == 'demo':
+                continue
+            a4 = f4.node.args
+            n4 += 1
+            ok4 = len(a4.posonlyargs) == 2 and not a4.args and not a4.kwonlyargs and a4.vararg is None \
+                and a4.kwarg is not None
+            ck.ob(R4, f"{f4.fid} :: signature", ok4,
+                  f"event({', '.join(x.arg for x in a4.posonlyargs)}, /, **{a4.kwarg.arg if a4.kwarg else '?'})" if ok4
+                  else "the event type is not positional-only (or the data are not collected by **keywords): an "
+                  f"event with a data item named {[x.arg for x in a4.args + a4.kwonlyargs] or '...'} cannot be "
+                  "delivered to blocks of this class (TypeError: multiple values)", f4, f4.node)
+            if c4.qual != 'block:SBlock' and ok4:
+                sup4 = [x for x in own_nodes(f4.node) if isinstance(x, _ast.Call) and is_super_call(x, 'event')]
+                good4 = bool(sup4) and all(
+                    len(x.args) == 1 and norm(x.args[0]) == a4.posonlyargs[1].arg and len(x.keywords) == 1 and
+                    x.keywords[0].arg is None and norm(x.keywords[0].value) == a4.kwarg.arg for x in sup4)
+                ck.ob(R4, f"{f4.fid} :: passes everything on", good4,
+                      "super().event(etype, **data)" if good4 else
+                      "the override does not hand the type and the complete data to the next event()", f4,
+                      sup4[0] if sup4 else f4.node)
+        ck.need(R4, n4 >= 2, f"only {n4} definitions of event() found (2 confirmed by hand)")
     with ck.section('R14.1c'):
         from rules.shared import simtask_implies_error_recorded
         simtask_implies_error_recorded(ck, R1)
